@@ -231,6 +231,48 @@ def gen_stop_with_new(modes):
     return out
 
 
+def gen_pool_limits():
+    """tie of the limit split among pool workers: white-box read of every worker's connection_limit
+    right after MHD_start_daemon vs the model's `workerLimits`, all limits 1..12 x pool sizes 1..6"""
+    out = []
+    for mode in ("select-thr", "poll-thr", "epoll-thr"):
+        for limit in range(1, 13):
+            for pool in range(1, 7):
+                if mode != "select-thr" and (limit * 7 + pool) % 5:   # the other two polling modes: a sample
+                    continue
+                out.append(["case pl_%s_%d_%d" % (mode, limit, pool),
+                            "cfg mode=%s limit=%d perip=0 suspend=0 upgrade=0 nts=0 pool=%d" % (mode, limit, pool),
+                            "start", "pool-limits", "stop"])
+    return out
+
+
+def gen_pool_family():
+    """thread pool: more clients than the limit, one at a time (each is processed before the next arrives, so
+    MHD_add_connection sees up-to-date worker counters and fills every worker up to its own limit)"""
+    out = []
+    for mode in ("select-thr", "poll-thr", "epoll-thr"):
+        for limit, pool, perip in ((5, 4, 0), (7, 3, 0), (3, 2, 2)):
+            L = ["case pool_%s_%d_%d" % (mode, limit, pool),
+                 "cfg mode=%s limit=%d perip=%d suspend=0 upgrade=0 nts=0 pool=%d" % (mode, limit, perip, pool),
+                 "start", "pool-limits"] + RESP_SETUP
+            nid = 0
+            for i in range(2 * limit):
+                L += ["arrive %d %d 1" % (nid, 1 + i % 4), SETTLE]; nid += 1
+            L += ["cclose 0", "cclose 1", SETTLE]
+            for i in range(3):
+                L.append("arrive %d %d 1" % (nid, 5 + i)); nid += 1
+            L.append(SETTLE)
+            for c in range(nid):
+                L.append("cclose %d" % c)
+            L += [SETTLE, SETTLE, "mark all-closed", "query"]
+            for i in range(limit):
+                L += ["arrive %d %d 1" % (nid, 10 + i), SETTLE]; nid += 1
+            L += ["mark fresh-batch", "query", "stop"]
+            L += ["resp-drop %d" % r for r in (1, 2, 3, 4)]
+            out.append(L)
+    return out
+
+
 def gen_exhaustive_small(modes):
     """all arrival patterns of length 4 over 2 addresses x 2 verdicts, limits 1..2, per-IP 0..2, then one
     close, settle, capacity check"""
@@ -427,7 +469,8 @@ class Spec:
     lean_targets = ["Mhd.Props.C09", "drv_daemon"]
     required_theorems = ["Mhd.C09.step_inv", "Mhd.C09.run_inv", "Mhd.C09.limits_hold", "Mhd.C09.capacity_restored", "Mhd.C09.close_all_then_round",
                          "Mhd.C09.stop_exactly_once", "Mhd.C09.lifecycle_balance", "Mhd.C09.refcount_refines",
-                         "Mhd.C09.free_callback_at_zero", "Mhd.C09.free_callback_exactly_once"]
+                         "Mhd.C09.free_callback_at_zero", "Mhd.C09.free_callback_exactly_once",
+                         "Mhd.C09.pool_split_sum", "Mhd.C09.pool_bound"]
     trusted_base = ["Lean 4 kernel", "axioms: propext, Classical.choice, Quot.sound at most (audited per theorem)",
                     "hand-written model lean/Mhd/Model/Limits.lean tied to daemon.c/response.c by this run's correspondence",
                     "harness/h_limits.c (close/epoll_ctl/malloc interposers, scripted clients), gcc, ASan/UBSan/LSan",
@@ -544,7 +587,9 @@ class Spec:
         for ci, c in enumerate(cases):
             # internal-thread modes: the daemon thread runs asynchronously to the script, the model's round
             # structure does not apply — implementation-side oracle only
-            t = None if ("-thr" in c[1] or "mode=tpc" in c[1]) else self.translate(c, hper[ci])
+            # (exception: the `pl_` cases only start a pool and read the workers' limits — deterministic)
+            t = None if (("-thr" in c[1] or "mode=tpc" in c[1]) and not c[0].startswith("case pl_")) \
+                else self.translate(c, hper[ci])
             if t is not None:
                 mcases.append(t); idx.append(ci)
             else:
@@ -629,6 +674,10 @@ class Spec:
             self.run_cases(allc[i:i + B], failures, stats)
             if len(failures) > 25:
                 break
+        # thread pool: limit split (exhaustive, compared with the model) + more clients than the limit (oracle)
+        pool = gen_pool_limits() + gen_pool_family()
+        self.run_cases(pool, failures, stats)
+        allc = allc + pool
         # internal polling thread (thorough tier only): oracle + sanitizers, no model comparison
         thr = []
         if thorough and len(failures) <= 25:
@@ -647,11 +696,14 @@ class Spec:
                        "x select/epoll x thread-safe/not, each with close + capacity check; allocation-failure enumeration: "
                        "k-th allocation (k=1..7) of an arrival fails; random histories with arrivals from 3 addresses + a non-IP one",
                "samples": [rnd[0][:40], af[3]],
-               "threaded_histories_oracle_only": len(thr), "exhaustive_histories": len(exh), "allocfail_histories": len(af), "random_histories": len(rnd), "corpus": ncorp,
+               "threaded_histories_oracle_only": len(thr), "pool_limit_split_cases": len(gen_pool_limits()),
+               "pool_histories_oracle_only": len(gen_pool_family()), "exhaustive_histories": len(exh), "allocfail_histories": len(af), "random_histories": len(rnd), "corpus": ncorp,
                "outcomes": stats, "exhaustive": False,
                "correspondence": {"MHD_add_connection/internal_add_connection/new_connection_prepare_/new_connection_process_/"
                                   "new_connections_list_process_/MHD_ip_limit_add/MHD_ip_limit_del/MHD_cleanup_connections/"
                                   "close_all_connections/MHD_stop_daemon/resume_suspended_connections/MHD_destroy_response": "bounded-exhaustive (above) + random %d" % len(rnd),
+                                  "MHD_start_daemon_va (split of the limit among pool workers)": "exhaustive: limits 1..12 x pool sizes 1..6 (select-thr) + sample in poll-thr/epoll-thr, white-box read of worker limits vs model",
+                                  "MHD_add_connection with a worker pool": "9 fixed histories (3 polling modes x 3 limit/pool pairs), oracle only",
                                   "MHD_accept_connection (accept4 wrapper and limit gating of the listen socket)": "not exercised; its callee internal_add_connection(external_add=false) is the path run with nts=1"}}
         return failures, cov
 
